@@ -30,6 +30,7 @@ structure State where
   eof : Int := -2
   root : Forest := []
   expect : Option Forest := none     -- C09: the tree the input was rendered from
+  stat : String := "-"               -- observables of the last parse (`p stat`, `x stat`)
   deriving Inhabited
 
 /-! forest text: `.` | tree{,tree};  tree = name['='value]['(' forest ')'] -/
@@ -103,8 +104,27 @@ def internals (code : Int) (st : St) (src : Src) (inputLen : Nat) : String :=
 
 /-- outcomes the property allows for `mpt_parse_config`: success needs well nested events, every
     value handed out must be stored data; a source that reported a read error cannot give success -/
-def cfgAlts (eof : Int) : String :=
-  if eof == -2 then "ok nest=ok vals=ok ; * || err nest=- vals=ok ; *" else "err nest=- vals=ok ; *"
+def cfgAlts (eof : Int) (mayRefuse : Bool := false) : String :=
+  let errs := if mayRefuse then "err nest=- vals=ok refused=no ; * || err nest=- vals=ok refused=yes ; *"
+    else "err nest=- vals=ok refused=no ; *"
+  if eof == -2 then "ok nest=ok vals=ok refused=no ; * || " ++ errs else errs
+
+/-- `stat` text of a parse through the character source of the driver -/
+def statOf (code : Int) (st : St) (src : Src) (inputLen : Nat) : String :=
+  s!"code={code} line={st.line} getc={src.reads} used={inputLen - src.rest.length}"
+
+mutual
+/-- values of a forest by the representation `mpt_meta_new` gives them: (inline, buffer) -/
+def repCountTree : Tree → Nat × Nat
+  | .node _ v cs =>
+    let c := repCount cs
+    match v with
+    | none => c
+    | some x => (match metaRep x with | .inline _ => (c.1 + 1, c.2) | .buffer _ => (c.1, c.2 + 1))
+def repCount : Forest → Nat × Nat
+  | [] => (0, 0)
+  | t :: ts => let a := repCountTree t; let b := repCount ts; (a.1 + b.1, a.2 + b.2)
+end
 
 def cfgOf (s : State) : Format × UInt8 := parseFormat s.fmt
 
@@ -160,14 +180,20 @@ def step (s : State) (w : List String) : State × String :=
     | some failAt =>
       let (pf, t) := cfgOf s
       match Kind.ofType t with
-      | none => (s, "R err nest=- vals=ok | C . | I code=-3 line=1 getc=0 used=0 curr=0 | S err nest=- vals=ok ; *")
+      | none => ({ s with stat := "code=-3 line=1 getc=0 used=0" },
+          "R err nest=- vals=ok refused=no | C . | I code=-3 line=1 getc=0 used=0 curr=0 | S err nest=- vals=ok refused=no ; *")
       | some k =>
         let cfg : Cfg := { fmt := pf, sect := s.sect, opt := s.opt, eof := s.eof }
         let r := parseConfig k cfg (record failAt) [] 0 s.input
         let evs := r.ctx.reverse
         let nest := if r.code < 0 then "-" else if (Events.run [] evs).isSome then "ok" else "bad"
         let verdict := if r.code < 0 then "err" else "ok"
-        (s, s!"R {verdict} nest={nest} vals=ok | C {fmtEvents evs} | I {internals r.code r.st r.src s.input.length} | S {cfgAlts s.eof}")
+        -- the recording handler refused: the loop returned -0x80 at the call it was told to refuse
+        let refused := match failAt with
+          | some n => if r.code == -128 && r.ctx.length == n then "yes" else "no"
+          | none => "no"
+        ({ s with stat := statOf r.code r.st r.src s.input.length },
+          s!"R {verdict} nest={nest} vals=ok refused={refused} | C {fmtEvents evs} | I {internals r.code r.st r.src s.input.length} | S {cfgAlts s.eof failAt.isSome}")
   | ["p", "node"] =>
     let r := parseNode s.root s.fmt s.sect s.opt s.eof s.input
     let verdict := if r.code < 0 then "err" else "ok"
@@ -179,7 +205,9 @@ def step (s : State) (w : List String) : State × String :=
       | none =>
         if s.eof == -2 then s!"ok sound=ok names={nm} ; * || err sound=ok names=- ; {fmtForest s.root}"
         else s!"err sound=ok names=- ; {fmtForest s.root}"
-    ({ s with root := r.children, expect := none },
+    let rc := repCount r.children
+    ({ s with root := r.children, expect := none,
+              stat := statOf r.code r.st r.src s.input.length ++ s!" inline={rc.1} buffer={rc.2}" },
       s!"R {verdict} sound=ok names={names} | C {fmtForest r.children} | I {internals r.code r.st r.src s.input.length} | S {alts}")
   | ["p", "expect", f] =>
     match parseForest f with
@@ -195,7 +223,7 @@ def step (s : State) (w : List String) : State × String :=
     | some limits, true =>
       let r := nodeParse s.root s.fmt limits s.input
       let verdict := if r.code < 0 then "err" else "ok"
-      ({ s with root := r.children },
+      ({ s with root := r.children, stat := s!"code={r.code}" },
         s!"R {verdict} sound=ok | C {fmtForest r.children} | I code={r.code} | S ok sound=ok ; * || err sound=ok ; {fmtForest s.root}")
     | _, _ => (s, "bad-op")
   | ["p", "folder"] =>
@@ -205,7 +233,9 @@ def step (s : State) (w : List String) : State × String :=
     let nest := if r.code < 0 then "-" else if (Events.run [] evs).isSome then "ok" else "bad"
     let verdict := if r.code < 0 then "err" else "ok"
     let code : Int := if r.code < 0 then r.code else 1
-    (s, s!"R {verdict} nest={nest} vals=ok | C {fmtEvents evs} | I code={code} | S {cfgAlts (-2)}")
+    ({ s with stat := s!"code={code}" },
+      s!"R {verdict} nest={nest} vals=ok | C {fmtEvents evs} | I code={code} | S ok nest=ok vals=ok ; * || err nest=- vals=ok ; *")
+  | ["p", "stat"] => (s, s!"R ok | C {s.stat}")
   | ["p", "end"] => (({} : State), "R ok leaks=0")
   /- mpt::config_parser -/
   | ["x", "new", a, b] =>
@@ -271,7 +301,8 @@ def step (s : State) (w : List String) : State × String :=
     | some xp =>
       let anyAlt := s!"ok sound=ok ; * || err sound=ok ; {fmtForest s.xtarget}"
       if !xp.opened then
-        (s, s!"R err sound=ok | C {fmtForest s.xtarget} | I code=-1 curr={xp.curr} | S {anyAlt}")
+        ({ s with stat := "code=-1" },
+          s!"R err sound=ok | C {fmtForest s.xtarget} | I code=-1 curr={xp.curr} | S {anyAlt}")
       else
         let cfg : Cfg := { fmt := xp.fmt, sect := xp.sect, opt := xp.opt, eof := -2 }
         let pr := parserRead xp.kind cfg xp.curr s.xtarget xp.rest
@@ -283,8 +314,9 @@ def step (s : State) (w : List String) : State × String :=
           | some f, true => s!"ok sound=ok ; {fmtForest f}"
           | _, _ => anyAlt
         let xp' := { xp with rest := r.src.rest, lineZero := false, curr := r.st.curr }
-        ({ s with xp := some xp', xtarget := tgt },
+        ({ s with xp := some xp', xtarget := tgt, stat := s!"code={r.code}" },
           s!"R {verdict} sound=ok | C {fmtForest tgt} | I code={r.code} curr={r.st.curr} | S {alts}")
+  | ["x", "stat"] => (s, s!"R ok | C {s.stat}")
   | ["x", "end"] => (({} : State), "R ok leaks=0")
   | _ => (s, "bad-op")
 
